@@ -618,7 +618,7 @@ def index_full_rule(ck, facts):
     ck.floor("R1.4b", "ensure_index implementations in sophia_inmem", len(fns), 1)
 
 
-def who_may_write_rule(ck, facts):
+def who_may_write_rule(ck, facts, crate="sophia_inmem", floor=20):
     """R1.8: the ordered index sets of the stores are borrowed mutably only by the primitives `insert` and `remove` (whose
     pairing of primary and secondary writes R1.1 decides).  Any other function of sophia_inmem taking `&mut` of a BTreeSet
     (a bulk-loading override, a helper, a `retain`) bypasses that pairing and must be audited."""
@@ -626,7 +626,7 @@ def who_may_write_rule(ck, facts):
     n = 0
     offenders = {}
     for fn in facts.fns.values():
-        if fn.crate != "sophia_inmem":
+        if fn.crate != crate:
             continue
         root = fn if fn.kind != "Closure" else facts.fns.get(fn.root, fn)
         if root.impl and root.impl.get("derived"):
@@ -646,12 +646,17 @@ def who_may_write_rule(ck, facts):
                "not cover it (e.g. a bulk insertion that fills one index first leaves the others behind when the stream fails)" % name, loc)
     if not offenders:
         ck.ok("R1.8", "index sets are mutably borrowed only in insert/remove of the four stores (%d borrows)" % n)
-    ck.floor("R1.8", "mutable borrows of index sets", n, 20)
+    ck.floor("R1.8", "mutable borrows of index sets", n, floor)
 
 
 def run(ck, facts, tier):
     facts.require_crates(["sophia_inmem", "sophia_api", "sophia_sparql"])
     index_full_rule(ck, facts)
+    import core
+    pr = core.Probe()
+    who_may_write_rule(pr, core.fixture_facts(), crate="vfix", floor=0)
+    ck.control("R1.8", "TwoIndexes::pos_bulk_load (fills one index first)", pr.fired(r"pos_bulk_load#mutates-index-set$"))
+    ck.control("R1.8", "TwoIndexes::neg_read_only", pr.fired(r"neg_read_only"), expect=False)
     who_may_write_rule(ck, facts)
     total_scans = 0
     for store, kind, n in STORES:
